@@ -1053,12 +1053,15 @@ pub mod hx_rewrite_lib {
         canonical: Tt4,
         pat: AigPattern,
     }
-    /// nl in 0..=5 strictly ascending leaves over old nodes 0..=5, a symbolic cone size, ANY table tt for the cut, t ANY transform of the group,
-    /// canonical with canonical == t.apply(tt) (npn_canonical's contract; used in `promised` in the pointwise form unit npn proves for apply),
-    /// pattern ANY well-formed pattern with `gates` gates and pat.tt() == canonical (library lemma of unit npn; real AigPattern::tt).
+    /// nl in 0..=5 strictly ascending leaves over old nodes 0..=5, a symbolic cone size, ANY table tt for the cut, t ANY transform of the group with
+    /// canonical = t.apply(tt) (real apply: npn_canonical's contract), pattern ANY well-formed pattern with `gates` gates and pat.tt() == canonical
+    /// (library lemma of unit npn; real AigPattern::tt).
     /// `gates` is concrete per harness (0..=3 = MAX_ANDS all covered): AigPattern::eval / instantiate_pattern allocate Vecs of that size, symbolic sizes blow up CBMC's heap model
-    fn any_case(slot: usize, gates: u8, in_library: bool) -> CutCase {
-        let nl: u8 = kani::any();
+    fn any_case(slot: usize, gates: u8, in_library: bool, fixed_nl: Option<u8>) -> CutCase {
+        let nl: u8 = match fixed_nl {
+            Some(n) => n,
+            None => kani::any(),
+        };
         let leaves: [u32; 5] = kani::any();
         let cone_size: u32 = kani::any();
         kani::assume(nl <= 5);
@@ -1069,7 +1072,7 @@ pub mod hx_rewrite_lib {
         }
         let tt: Tt4 = kani::any();
         let t = any_transform();
-        let canonical: Tt4 = kani::any();
+        let canonical = t.apply(tt);
         let pat = any_pattern(gates);
         kani::assume(pat.tt() == canonical);
         assert!(wf_pattern(&pat));
@@ -1089,8 +1092,9 @@ pub mod hx_rewrite_lib {
     }
     /// the new AIG while rewriting: 6 existing nodes with symbolic values (node 0 = constant false), and the map old node -> new edge for old nodes 0..=5
     fn any_dest() -> (AigModule, [Option<AigEdge>; 6]) {
-        let mut vals: [bool; VN] = kani::any();
-        vals[0] = false;
+        // ten node values without a loop (the unwinding bound of these harnesses is 7: every loop over a symbolic length is unrolled to the bound)
+        let b: u16 = kani::any();
+        let vals: [bool; VN] = [false, b & 2 != 0, b & 4 != 0, b & 8 != 0, b & 16 != 0, b & 32 != 0, b & 64 != 0, b & 128 != 0, b & 256 != 0, b & 512 != 0];
         let ne = [Some(any_edge(5)), Some(any_edge(5)), Some(any_edge(5)), Some(any_edge(5)), Some(any_edge(5)), Some(any_edge(5))];
         (AigModule::with_values(vals, 6), ne)
     }
@@ -1120,8 +1124,7 @@ pub mod hx_rewrite_lib {
     /// the function the cut table promises for the root on the mapped leaves, and - asserted first, then used - the chain that links it to the pattern:
     ///   y_i := z[perm[i]] ^ neg_i                                    (what the code must feed to canonical variable i)
     ///   (a) bit m_y of pat.tt()       == pat evaluated on y          (unit npn: pattern_tt_is_its_function; re-checked here on the real tt())
-    ///   (b) bit m_y of canonical = t.apply(tt) == out_neg ^ tt(z'), z'[perm[i]] = y_i ^ neg_i   (ASSUMED FROM UNIT npn: harness apply_is_the_documented_composition proves it
-    ///       for every tt, every transform of the group and every minterm; evaluating the real apply() here on a symbolic perm triples the cost of these harnesses)
+    ///   (b) bit m_y of t.apply(tt)    == out_neg ^ tt(z'), z'[perm[i]] = y_i ^ neg_i   (unit npn: apply_is_the_documented_composition; re-checked on the real apply())
     ///   (c) z' == z                                                  (perm is a permutation)
     ///   => tt(z) == out_neg ^ pat(y)
     fn promised(c: &CutCase, z: [bool; 4]) -> bool {
@@ -1134,6 +1137,7 @@ pub mod hx_rewrite_lib {
         kani::assume(pa == pv);
         let ca = (c.canonical >> my) & 1 == 1;
         let nv = npn_value_at(c.tt, p, neg, c.t.out_neg, y);
+        assert!(ca == nv, "(b) NpnTransform::apply bit != out_neg ^ tt(z')");
         kani::assume(ca == nv);
         let want = value_at(c.tt, z);
         assert!(nv == (c.t.out_neg ^ want), "(c) z' != z");
@@ -1145,7 +1149,7 @@ pub mod hx_rewrite_lib {
     /// allowed by unit npn's contracts; cuts with < 2 or > 4 leaves are never used; older nodes of the new AIG are untouched
     fn one_cut(gates: u8, in_library: bool) {
         oracle::reset();
-        let c = any_case(0, gates, in_library);
+        let c = any_case(0, gates, in_library, None);
         let (mut new_aig, ne) = any_dest();
         let before = new_aig.vals;
         let old = AigModule::with_values([false; VN], 1);
@@ -1162,10 +1166,13 @@ pub mod hx_rewrite_lib {
         }
     }
     #[vp_proof(17)]
-    pub fn try_library_rewrite_computes_cut_function_0_1_gates() {
+    pub fn try_library_rewrite_computes_cut_function_0_gates() {
         one_cut(0, true);
-        one_cut(1, true);
         one_cut(0, false);
+    }
+    #[vp_proof(17)]
+    pub fn try_library_rewrite_computes_cut_function_1_gate() {
+        one_cut(1, true);
     }
     #[vp_proof(17)]
     pub fn try_library_rewrite_computes_cut_function_2_gates() {
@@ -1179,7 +1186,7 @@ pub mod hx_rewrite_lib {
     #[vp_proof(17)]
     pub fn canary_try_library_rewrite_replaces() {
         oracle::reset();
-        let c = any_case(0, 2, true);
+        let c = any_case(0, 2, true, None);
         let (mut new_aig, ne) = any_dest();
         let old = AigModule::with_values([false; VN], 1);
         let cuts = [cut_of(&c)];
@@ -1188,12 +1195,19 @@ pub mod hx_rewrite_lib {
     }
     /// two cuts of the same root (their tables describe the same root value on the mapped leaves): whichever wins the size comparison, the edge is right
     #[vp_proof(17)]
-    pub fn try_library_rewrite_best_of_two_cuts() {
+    pub fn try_library_rewrite_best_of_two_cuts_second_smaller() {
+        two_cuts(1, 0);
+    }
+    #[vp_proof(17)]
+    pub fn try_library_rewrite_best_of_two_cuts_first_smaller() {
+        two_cuts(0, 1);
+    }
+    /// concrete leaf counts (3 and 2): both cuts reach compute_cut_tt, so the oracle's call counter (slot index) stays a constant for CBMC;
+    /// the skip conditions and all leaf counts are covered by the one-cut harnesses
+    fn two_cuts(g0: u8, g1: u8) {
         oracle::reset();
-        let c0 = any_case(0, 0, true);
-        let c1 = any_case(1, 1, true);
-        // both cuts reach compute_cut_tt (the oracle hands out slots in call order); the skip conditions are covered by the one-cut harness
-        kani::assume(c0.nl >= 2 && c0.nl <= 4 && c1.nl >= 2 && c1.nl <= 4);
+        let c0 = any_case(0, g0, true, Some(3));
+        let c1 = any_case(1, g1, true, Some(2));
         let (mut new_aig, ne) = any_dest();
         let old = AigModule::with_values([false; VN], 1);
         let want = promised(&c0, leaf_values(&c0, &ne, &new_aig));
